@@ -34,6 +34,8 @@ pub static INFO: PropInfo = PropInfo {
         ("trend_runs_completed", 2),
         ("fill_exact", 50),
         ("stale_fragment_runs", 20),
+        ("long_gap_runs", 10),
+        ("long_gap_runs_over_1024_messages_behind_the_gap", 3),
     ],
     engines_quick: &["e1", "e2"],
     engines_thorough: &["e1", "e2"],
@@ -51,10 +53,12 @@ pub fn one_run(ctx: &Ctx, out: &mut Outcome, run_seed: u64) {
         Some("session") => 0,
         Some("fill") => 2,
         Some("stale-fragment") => 3,
+        Some("long-gap") => 4,
         _ => match r.below(40) {
             0 => 1,
             1..=8 => 2,
             9 | 10 => 3,
+            11 | 12 => 4,
             _ => 0,
         },
     };
@@ -64,6 +68,8 @@ pub fn one_run(ctx: &Ctx, out: &mut Outcome, run_seed: u64) {
         fill(ctx, out, run_seed, &mut r);
     } else if mode == 3 {
         stale_fragment(ctx, out, run_seed, &mut r);
+    } else if mode == 4 {
+        long_gap(ctx, out, run_seed, &mut r);
     } else {
         session(ctx, out, run_seed, &mut r);
     }
@@ -965,5 +971,201 @@ fn stale_fragment(ctx: &Ctx, out: &mut Outcome, run_seed: u64, r: &mut Rng) {
             format!("a {}-slice unreliable message got only slice {} at t=0 and copies of it at {:?} ms; at t={} ms the receive channel still accounts {:?} bytes for it", n_slices, which, copies, t, now),
             json!({"property": "C09", "engine": ctx.engine, "run_seed": format!("{:#x}", run_seed), "mode": "stale-fragment", "history": hist}),
         );
+    }
+}
+
+/// A long history behind one missing message. One sliced reliable message (id 0) keeps losing a slice; behind it a
+/// sliced message is received whole (and, on an unordered channel, consumed), then up to some 1300 further messages
+/// are received while message 0 is still missing; then late duplicates of recorded packets of those messages arrive
+/// (a slice of the consumed sliced message first), and finally the gap closes and everything is drained and
+/// acknowledged. Whatever the receiver remembers about ids at or above the missing one has to hold for a history of
+/// any length: after the drain the receive side accounts nothing, the send side offers its whole budget, nobody was
+/// disconnected.
+fn long_gap(ctx: &Ctx, out: &mut Outcome, run_seed: u64, r: &mut Rng) {
+    let budget = *r.pick(&[256 * 1024usize, 1 << 20, 5 << 20]);
+    let resend = *r.pick(&[50u64, 100, 300]);
+    let chans = vec![
+        ChanSpec { id: 0, kind: Kind::Unreliable, resend_ms: 0, max_mem: budget },
+        ChanSpec { id: 1, kind: Kind::ReliableUnordered, resend_ms: resend, max_mem: budget },
+        ChanSpec { id: 2, kind: Kind::ReliableOrdered, resend_ms: resend, max_mem: budget },
+    ];
+    let cc = ConnectionConfig {
+        available_bytes_per_tick: 60_000,
+        server_channels_config: chans.iter().map(|c| c.to_config()).collect(),
+        client_channels_config: chans.iter().map(|c| c.to_config()).collect(),
+    };
+    let mut server = RenetServer::new(cc.clone());
+    let id = 80;
+    server.add_connection(id);
+    let mut client = RenetClient::new(cc);
+    client.set_connected();
+    let up = r.chance(1, 2);
+    let dir = if up { UP } else { DOWN };
+    let ch: u8 = if r.chance(3, 4) { 1 } else { 2 };
+    let kind = chans[ch as usize].kind.short();
+    let tag = r.next_u64();
+    let long = r.chance(1, 2);
+    let n_behind = if long { 1030 + r.urange(0, 300) } else { r.urange(20, 600) };
+    let gap_slices = r.urange(2, 3);
+    let lost_slice = r.usize_below(gap_slices);
+    let mut hist: Vec<String> = Vec::new();
+    let mut submitted = 0u64;
+    let mut obtained = 0u64;
+    let mut gap_open = true;
+    let mut recorded: Vec<Vec<u8>> = Vec::new();
+    let mut recorded_slice: Option<Vec<u8>> = None;
+    let mut tick = 0u64;
+    let dt = Duration::from_millis(*r.pick(&[16u64, 50, 100]));
+
+    macro_rules! submit {
+        ($len:expr) => {{
+            let b = Bytes::from(payload::make(0, dir, ch, 0, submitted, $len, tag));
+            let ok = if up { client.can_send_message(ch, b.len()) } else { server.can_send_message(id, ch, b.len()) };
+            if ok {
+                if up {
+                    client.send_message(ch, b);
+                } else {
+                    server.send_message(id, ch, b);
+                }
+                submitted += 1;
+            }
+            ok
+        }};
+    }
+    macro_rules! pump {
+        () => {{
+            tick += 1;
+            server.update(dt);
+            client.update(dt);
+            let upk = client.get_packets_to_send();
+            let dpk = server.get_packets_to_send(id).unwrap_or_default();
+            for (d, pkts) in [(UP, upk), (DOWN, dpk)] {
+                for p in pkts {
+                    if d == dir {
+                        match crate::rsim::decode(&p) {
+                            Some(Packet::ReliableSlice { channel_id, slice, .. }) if channel_id == ch => {
+                                if slice.message_id == 0 && slice.slice_index == lost_slice && gap_open {
+                                    continue;
+                                }
+                                if slice.message_id == 1 && recorded_slice.is_none() {
+                                    recorded_slice = Some(p.clone());
+                                }
+                            }
+                            Some(Packet::SmallReliable { channel_id, .. }) if channel_id == ch && recorded.len() < 8 && tick % 7 == 0 => recorded.push(p.clone()),
+                            _ => {}
+                        }
+                    }
+                    if d == UP {
+                        let _ = server.process_packet_from(&p, id);
+                    } else {
+                        client.process_packet(&p);
+                    }
+                }
+            }
+            if up {
+                while server.receive_message(id, ch).is_some() {
+                    obtained += 1;
+                }
+            } else {
+                while client.receive_message(ch).is_some() {
+                    obtained += 1;
+                }
+            }
+        }};
+    }
+    // message 0: the one that stays incomplete; message 1: sliced, received whole
+    let gap_len = (gap_slices - 1) * 1200 + r.urange(1, 1200);
+    submit!(gap_len);
+    pump!();
+    let m1_slices = r.urange(2, 4);
+    submit!((m1_slices - 1) * 1200 + r.urange(1, 1200));
+    pump!();
+    pump!();
+    hist.push(format!("dir {} ch {} ({}): message 0 ({} slices) keeps losing slice {}; message 1 ({} slices) received whole; obtained so far {}", dir, ch, kind, gap_slices, lost_slice, m1_slices, obtained));
+    let mut left = n_behind;
+    let mut guard = 0;
+    while left > 0 && guard < 4000 {
+        guard += 1;
+        let batch = r.urange(1, 40).min(left);
+        for _ in 0..batch {
+            let len = r.urange(1, 60);
+            if submit!(len) {
+                left -= 1;
+            }
+        }
+        pump!();
+    }
+    for _ in 0..4 {
+        pump!();
+    }
+    hist.push(format!("{} further messages received behind the gap (obtained so far {} of {} submitted)", n_behind - left, obtained, submitted));
+    // late duplicates
+    let mut dups = 0;
+    if let Some(p) = &recorded_slice {
+        for _ in 0..r.urange(1, 3) {
+            if up {
+                let _ = server.process_packet_from(p, id);
+            } else {
+                client.process_packet(p);
+            }
+            dups += 1;
+        }
+        out.count("long_gap_late_slice_duplicates");
+    }
+    for p in recorded.iter() {
+        if r.chance(1, 2) {
+            if up {
+                let _ = server.process_packet_from(p, id);
+            } else {
+                client.process_packet(p);
+            }
+            dups += 1;
+        }
+    }
+    hist.push(format!("{} late duplicates of recorded packets delivered (one of them a slice of message 1: {})", dups, recorded_slice.is_some()));
+    pump!();
+    gap_open = false;
+    let mut settle = 0;
+    loop {
+        pump!();
+        settle += 1;
+        let sender: &RenetClient = if up { &client } else { server.verif_connection(id).unwrap() };
+        let acked = sender.verif_unacked(ch).map_or(true, |v| v.is_empty());
+        if (acked && obtained >= submitted && settle > 3) || settle > 400 {
+            break;
+        }
+    }
+    let _ = gap_open;
+    let recv_mem = if up { server.verif_connection(id).and_then(|c| c.verif_receive_memory(ch)) } else { client.verif_receive_memory(ch) };
+    let avail = if up { client.channel_available_memory(ch) } else { server.channel_available_memory(id, ch) };
+    let disc = (client.disconnect_reason(), server.disconnect_reason(id));
+    hist.push(format!("gap closed, drained for {} ticks: obtained {} of {}, receive side accounts {:?}, send side offers {} of {}, disconnects {:?}", settle, obtained, submitted, recv_mem, avail, budget, disc));
+    out.count("long_gap_runs");
+    if long && left == 0 {
+        out.count("long_gap_runs_over_1024_messages_behind_the_gap");
+    }
+    out.count(&format!("long_gap_runs.{}", kind));
+    out.add("memory_checks", 2);
+    out.eval(crate::rng::mix(&[0x10A6, run_seed, n_behind as u64, ch as u64, dir as u64]), obtained >= submitted);
+    let report = |out: &mut Outcome, sig: String, clause: &str, detail: String| {
+        out.violation(ctx, &sig, clause, detail, json!({"property": "C09", "engine": ctx.engine, "run_seed": format!("{:#x}", run_seed), "mode": "long-gap", "budget": budget, "history": hist}));
+    };
+    if disc.0.is_some() || disc.1.is_some() {
+        let mem = format!("{:?}", disc).contains("MaxMemory");
+        if mem {
+            return report(out, format!("C09/spurious-memory-disconnect/long-gap/{kind}"), "a connection whose traffic stays within budget and whose application drains promptly is never disconnected for exhausted channel memory", format!("disconnected: {:?}", disc));
+        }
+        out.count("long_gap_runs_disconnected_otherwise");
+        return;
+    }
+    if obtained < submitted {
+        out.count("long_gap_runs_not_drained");
+        return;
+    }
+    if recv_mem != Some(0) {
+        return report(out, format!("C09/receive-memory-never-returns/long-gap/{kind}"), "when all submitted reliable messages have been received and acknowledged, every channel again offers its whole budget", format!("{} messages behind a gap of one message, {} late duplicates; after the drain the receive channel accounts {:?} bytes", n_behind, dups, recv_mem));
+    }
+    if avail != budget {
+        return report(out, format!("C09/send-memory-never-returns/long-gap/{kind}"), "send-side bytes come back when messages are acknowledged", format!("after the drain the send channel offers {} of {}", avail, budget));
     }
 }
